@@ -101,5 +101,7 @@ Definition check_C08 := check_conn 30 39.
 Definition check_C09 := check_conn 40 49.
 Definition check_C11 := check_conn 50 59.
 Definition check_C14conn := check_conn 80 89.
+(* C10 (c): a cancel while the hello phase is waiting aborts the handshake for good *)
+Definition check_C10conn := check_conn 13 13.
 Definition check_C06 (c : conn_case) : codes :=
   check_conn 60 60 c ++ c06_data false [] [] (cc_events c) (cc_obs c).
